@@ -178,6 +178,8 @@ def item_yaml(it):
         return d
     if t == "var":
         return {"var": it["name"], "value": it["value"]}
+    if t == "plugin":
+        return {"plugin": it["name"]}
     if t in ("macro", "obj"):
         d = {"macro": it["name"]} if t == "macro" else {"object": it["table"]}
         if t == "obj" and it.get("count") is not None:
@@ -216,7 +218,23 @@ def tree_text(f, name="main.yml", out=None):
 
 
 # =================================================================== generation: inline recipes
-def gen_value(rng, fields_before, vars_before, opts):
+COUNTERS = "snowfakery.standard_plugins.Counters"
+
+
+def gen_stateful(rng):
+    """a field definition that keeps state per call site (one state per place it is written)"""
+    if rng.random() < 0.75:
+        return {"Counters.NumberCounter": {"start": rng.choice([1, 1, 5, 100]), "step": rng.choice([1, 1, 2, 10])}}
+    return {"Counters.DateCounter": {"start_date": "2020-0%d-15" % rng.randint(1, 9), "step": rng.choice(["+1d", "+1M", "+7d"])}}
+
+
+def _is_stateful(v):
+    return isinstance(v, dict) and next(iter(v)).startswith("Counters.")
+
+
+def gen_value(rng, fields_before, vars_before, opts, stateful=False):
+    if stateful and rng.random() < 0.3:
+        return gen_stateful(rng)
     r = rng.random()
     if r < 0.22:
         return rng.choice([0, 1, -1, 5, 12, 300])
@@ -239,15 +257,15 @@ def gen_value(rng, fields_before, vars_before, opts):
     return rng.choice(forms)
 
 
-def gen_friend(rng, vars_before, opts, depth=0):
+def gen_friend(rng, vars_before, opts, depth=0, stateful=False):
     nf = rng.randint(0, 2)
     names = rng.sample(FIELD_POOL, nf)
     fields = []
     for n in names:
-        fields.append([n, gen_value(rng, [x for x, _ in fields], vars_before, opts)])
+        fields.append([n, gen_value(rng, [x for x, _ in fields], vars_before, opts, stateful)])
     fr = {"table": rng.choice(["F", "G", "H"]), "fields": fields, "friends": []}
     if depth == 0 and rng.random() < 0.15:
-        fr["friends"] = [gen_friend(rng, vars_before, opts, 1)]
+        fr["friends"] = [gen_friend(rng, vars_before, opts, 1, stateful)]
     return fr
 
 
@@ -267,6 +285,9 @@ def gen_inline(rng):
             opts.append(name)
         if not has_default or rng.random() < 0.4:
             user[name] = rng.choice(VALS)
+    stateful = rng.random() < 0.5                        # the recipe uses the Counters plugin
+    if stateful:
+        items.append({"t": "plugin", "name": COUNTERS})
     vars_before = []
     nst = rng.choice([1, 1, 2, 2, 3, 4])
     for _ in range(nst):
@@ -282,12 +303,27 @@ def gen_inline(rng):
         names = rng.sample(FIELD_POOL, nf)
         fields = []
         for n in names:
-            fields.append([n, gen_value(rng, [x for x, _ in fields], vars_before, opts)])
-        friends = [gen_friend(rng, vars_before, opts) for _ in range(rng.choice([0, 0, 0, 1, 1, 2]))]
+            fields.append([n, gen_value(rng, [x for x, _ in fields], vars_before, opts, stateful)])
+        friends = [gen_friend(rng, vars_before, opts, 0, stateful) for _ in range(rng.choice([0, 0, 0, 1, 1, 2]))]
         if friends and rng.random() < 0.3:               # the same friend twice (shared-macro friends)
             friends.insert(rng.randint(1, len(friends)), copy.deepcopy(friends[0]))
         items.append({"t": "obj", "table": rng.choice(TABLES), "include": [], "fields": fields,
                       "friends": friends, "count": rng.choice([None, None, 1, 2, 3])})
+        # templates that start with the same fields (and friends): they can share a macro, and each
+        # of them must keep its own state for a stateful definition written in those fields
+        while fields and rng.random() < 0.4:
+            l = rng.randint(1, len(fields))
+            pre = copy.deepcopy(fields[:l])
+            if stateful and not any(_is_stateful(v) for _, v in pre) and rng.random() < 0.7:
+                pre[rng.randrange(len(pre))][1] = gen_stateful(rng)
+                items[-1]["fields"][:l] = copy.deepcopy(pre)
+            used = [n for n, _ in pre]
+            extra = rng.sample([n for n in FIELD_POOL if n not in used], rng.randint(0, 2))
+            tw = pre + [[n, gen_value(rng, used, vars_before, opts, stateful)] for n in extra]
+            twf = copy.deepcopy(friends[:rng.randint(0, len(friends))]) + \
+                [gen_friend(rng, vars_before, opts, 0, stateful) for _ in range(rng.choice([0, 0, 1]))]
+            items.append({"t": "obj", "table": rng.choice(TABLES), "include": [], "fields": tw,
+                          "friends": twf, "count": rng.choice([None, 2, 3])})
     return {"items": items}, user
 
 
@@ -322,7 +358,11 @@ def factor_macros(f, rng, info):
         return rng.choice(["junk%d" % junkc[0], 999, "${{1/0}}", None])
 
     new_items, macs = [], []
-    for it in f["items"]:
+    shared = _shared_macros(f, rng, info, counter, macs)
+    for idx, it in enumerate(f["items"]):
+        if idx in shared:
+            new_items.append(shared[idx])
+            continue
         if it["t"] != "obj" or rng.random() < 0.2:
             new_items.append(it)
             continue
@@ -393,6 +433,59 @@ def factor_macros(f, rng, info):
         new_items.append(new)
     # macro definitions may stand anywhere in the file (their relative order is kept)
     return {"items": _interleave(rng, new_items, macs)}
+
+
+def _same_field(a, b):
+    return a[0] == b[0] and rdef(a[1]) == rdef(b[1])
+
+
+def _common(la, lb, same):
+    n = 0
+    while n < len(la) and n < len(lb) and same(la[n], lb[n]):
+        n += 1
+    return n
+
+
+def _shared_macros(f, rng, info, counter, macs):
+    """templates that begin with the same fields (and friends) include ONE macro holding them
+    (optionally split over two nested macros): item index -> rewritten template"""
+    items = f["items"]
+    objs = [i for i, it in enumerate(items) if it["t"] == "obj"]
+    out = {}
+    for a, ia in enumerate(objs):
+        if ia in out or rng.random() < 0.25:
+            continue
+        group = [ia] + [ib for ib in objs[a + 1:] if ib not in out and
+                        _common(items[ia]["fields"], items[ib]["fields"], _same_field) >= 1]
+        if len(group) < 2:
+            continue
+        L = min(_common(items[ia]["fields"], items[ib]["fields"], _same_field) for ib in group[1:])
+        LF = min(_common(items[ia]["friends"], items[ib]["friends"], lambda x, y: rfriend(x) == rfriend(y))
+                 for ib in group[1:])
+        l, lf = rng.randint(1, L), rng.randint(0, LF)
+        pre, pf = items[ia]["fields"][:l], items[ia]["friends"][:lf]
+        counter[0] += 1
+        outer = "m%d" % counter[0]
+        inc = []
+        if rng.random() < 0.5:                              # nested: outer includes inner
+            counter[0] += 1
+            inner = "m%d" % counter[0]
+            cut, cf = rng.randint(0, l), rng.randint(0, lf)
+            macs.append({"t": "macro", "name": inner, "include": [], "fields": pre[:cut], "friends": pf[:cf]})
+            pre, pf, inc = pre[cut:], pf[cf:], [inner]
+            info["macros"] += 1
+        macs.append({"t": "macro", "name": outer, "include": inc, "fields": pre, "friends": pf})
+        info["macros"] += 1
+        info["shared_macros"] += 1
+        info["shared_macro_users"] += len(group)
+        if any(_is_stateful(v) for _, v in items[ia]["fields"][:l]) or \
+                any("Counters." in rfriend(x) for x in items[ia]["friends"][:lf]):
+            info["stateful_shared_macros"] += 1
+        for i in group:
+            it = items[i]
+            out[i] = dict(it, include=[outer], fields=it["fields"][l:], friends=it["friends"][lf:],
+                          inc_style=rng.randint(0, 2 * len(INC_STYLES) - 1))
+    return out
 
 
 def _diamond(it, lead, own, chunks, rng, info, counter, junk, macs):
@@ -488,7 +581,7 @@ def _diamond(it, lead, own, chunks, rng, info, counter, junk, macs):
 
 def factor_files(f, rng, info):
     """move leading options / macros / statements into a (nested) forest of include files"""
-    cats = {"opt": [], "macro": [], "stmt": []}
+    cats = {"opt": [], "macro": [], "stmt": [], "plugin": []}
     for it in f["items"]:
         cats["stmt" if it["t"] in ("obj", "var") else it["t"]].append(it)
     k = rng.choice([1, 1, 2, 2, 3])
@@ -506,7 +599,8 @@ def factor_files(f, rng, info):
         incs = []
         for ch in children:
             incs.append(inc_item(ch, depth + 1))
-        return {"items": _interleave(rng, incs, parts["opt"][root], parts["macro"][root], parts["stmt"][root])}
+        return {"items": _interleave(rng, incs, parts["opt"][root], parts["macro"][root], parts["stmt"][root],
+                                     parts["plugin"][root])}
 
     def inc_item(tree, depth):
         fcount[0] += 1
@@ -515,7 +609,7 @@ def factor_files(f, rng, info):
 
     incs = [inc_item(t, 1) for t in forest]
     info["files"] += k
-    return {"items": _interleave(rng, incs, parts["opt"][k], parts["macro"][k], parts["stmt"][k])}
+    return {"items": _interleave(rng, incs, parts["opt"][k], parts["macro"][k], parts["stmt"][k], parts["plugin"][k])}
 
 
 def factorings(case):
@@ -655,7 +749,17 @@ def generate(rng, tier):
 
 
 # =================================================================== implementation
-def _parse_and_run(path, user):
+def _two_iterations(f):
+    """target_number that makes the recipe run exactly two iterations: twice the rows one iteration
+    gives the table of the first top-level template (None if that is not a literal number)"""
+    objs = [it for it in f["items"] if it["t"] == "obj"]
+    if not objs:
+        return None
+    per = sum((it.get("count") if it.get("count") is not None else 1) for it in objs if it["table"] == objs[0]["table"])
+    return [2 * per, objs[0]["table"]] if per > 0 else None
+
+
+def _parse_and_run(path, user, target=None):
     """-> (parse observable, rows observable, merged observable)"""
     from snowfakery import generate_data
     from snowfakery.parse_recipe_yaml import parse_recipe
@@ -685,7 +789,8 @@ def _parse_and_run(path, user):
             merged = {"err": C.canon_exc(e)}
     out = io.StringIO()
     try:
-        generate_data(path, user_options=dict(user), output_format="json", output_file=out)
+        kw = {"target_number": (target[0], target[1])} if target else {}
+        generate_data(path, user_options=dict(user), output_format="json", output_file=out, **kw)
         txt = out.getvalue()
         data = json.loads(txt) if txt.strip() else []        # no rows at all: empty output
         rows = {"ok": [[[k, v] for k, v in row.items()] for row in data]}
@@ -715,10 +820,11 @@ def run_impl(case):
         if kind == "meta":
             a, b, info = factorings(case)
             obs = {"info": info}
+            target = _two_iterations(case["inline"])
             for key, f in (("inline", case["inline"]), ("macro", a), ("tree", b)):
                 d = os.path.join(tmp, key)
                 write_tree(f, os.path.join(d, "main.yml"))
-                p, r, m = _parse_and_run(os.path.join(d, "main.yml"), case["user"])
+                p, r, m = _parse_and_run(os.path.join(d, "main.yml"), case["user"], target)
                 obs[key] = {"parse": p, "rows": r, "merged": m}
             obs["parse"] = obs["tree"]["parse"]
             return obs
